@@ -23,8 +23,40 @@ FUNCTIONS = ["SuccessionDiagram.from_rules", "SuccessionDiagram.expand_minimal_s
              "SuccessionDiagram.expanded_attractor_seeds", "trappist_core.trappist (min / fix)"]
 
 
-def check_model(path, size_limit=400, selftest=False):
+def _alarm(*a):
+    raise TimeoutError()
+
+
+STRATS = {
+    # complete strategies (C01, C18): returns True iff the strategy reported completion
+    "min": lambda sd, lim: sd.expand_minimal_spaces(size_limit=lim),
+    "build": lambda sd, lim: (sd.build(), True)[1],
+    "aseeds": lambda sd, lim: sd.expand_attractor_seeds(size_limit=lim),
+    "block": lambda sd, lim: sd.expand_block(size_limit=lim),
+    "scc": lambda sd, lim: sd.expand_scc(),
+    "bfs": lambda sd, lim: sd.expand_bfs(size_limit=150),
+    # early stop + skip (C05)
+    "bfs3+skiprem": lambda sd, lim: (sd.expand_bfs(size_limit=3), sd.skip_remaining(), True)[2],
+    "dfs4+skipall": lambda sd, lim: (sd.expand_dfs(size_limit=4), [sd.skip_to_minimal(i) for i in sorted(sd.stub_ids())], True)[2],
+    "min+skip": lambda sd, lim: sd.expand_minimal_spaces(size_limit=lim, skip_ignored=True),
+}
+
+
+def check_model(path, size_limit=400, selftest=False, strat="min", cap_s=90):
     """returns (info, fails)"""
+    import signal
+    old = signal.signal(signal.SIGALRM, _alarm)
+    signal.alarm(int(cap_s))
+    try:
+        return _check_model(path, size_limit, selftest, strat)
+    except TimeoutError:
+        return {"skipped": f"time cap {cap_s}s", "queries": 0}, []
+    finally:
+        signal.alarm(0)
+        signal.signal(signal.SIGALRM, old)
+
+
+def _check_model(path, size_limit, selftest, strat):
     import biobalm
     from checks.C10 import parse_bnet, parse_expr
     sys.setrecursionlimit(60000)
@@ -38,7 +70,8 @@ def check_model(path, size_limit=400, selftest=False):
     sd = biobalm.SuccessionDiagram.from_rules(text)
     if sorted(sd.network.variable_names()) != sorted(names):
         return {"skipped": "variable names differ (sanitised)"}, []
-    complete = sd.expand_minimal_spaces(size_limit=size_limit)
+    label = label + "/" + strat
+    complete = STRATS[strat](sd, size_limit)
     mts = {int(i): dict(sd.node_data(i)["space"]) for i in sd.minimal_trap_spaces()}
     fails, q = [], 0
     s = z3.Solver()
@@ -90,8 +123,11 @@ def check_model(path, size_limit=400, selftest=False):
     elif r != z3.unsat:
         fails.append(f"{label}: unknown (completeness of fixed points)")
     s.pop()
-    # (c) seeds
-    seeds = sd.expanded_attractor_seeds()
+    # (c) seeds: the complete strategies report them through expanded_attractor_seeds(); after skipping, every node is asked
+    if "skip" in strat:
+        seeds = {i: sd.node_attractor_seeds(i, compute=True) for i in sd.node_ids()}
+    else:
+        seeds = sd.expanded_attractor_seeds()
     per_mts = {i: 0 for i in mts}
     for nid, lst in seeds.items():
         sp = sd.node_data(nid)["space"]
@@ -104,8 +140,15 @@ def check_model(path, size_limit=400, selftest=False):
             for i in inside:
                 per_mts[i] += 1
     for i, c in per_mts.items():
-        if c != 1:
+        if c != 1 and "skip" not in strat:
             fails.append(f"{label}: minimal trap space of node {i} has {c} seeds (every minimal trap space contains an attractor; one seed each)")
+        if c < 1 and "skip" in strat:
+            fails.append(f"{label}: no seed lies in the minimal trap space of node {i} (every attractor is reported at least once)")
+    # every fixed point of the network (z3 established above that they are exactly `fps`) is a seed of some node
+    flat = [dict(x) for lst in seeds.values() for x in lst]
+    for T in fps:
+        if T not in flat:
+            fails.append(f"{label}: fixed point {dict(list(T.items())[:6])}.. is not reported as a seed by any node")
     info.update({"fixed_points": len(fps), "seeds": sum(len(v) for v in seeds.values()), "queries": q})
     if selftest:
         fails.append(f"{label}: selftest")
@@ -114,6 +157,7 @@ def check_model(path, size_limit=400, selftest=False):
 
 def run_task(task):
     t0 = time.time()
+    strats = task["params"].get("strats", ["min"])
     try:
         fd = os.open(os.path.join(os.path.dirname(os.path.dirname(os.path.abspath(__file__))), "scratch", "worker_stderr.log"), os.O_WRONLY | os.O_CREAT | os.O_APPEND)
         os.dup2(fd, 2)
@@ -121,11 +165,15 @@ def run_task(task):
         pass
     viol, inconc, samples = [], [], []
     q = n = 0
-    for p in task["params"]["models"]:
+    for p, strat in [(p, st) for p in task["params"]["models"] for st in strats]:
+        if time.time() - t0 > task.get("timebox", 60) * 4:
+            continue
         try:
-            info, fails = check_model(p, selftest=bool(task["params"].get("selftest")))
+            info, fails = check_model(p, selftest=bool(task["params"].get("selftest")), strat=strat, cap_s=task["params"].get("cap_s", 90))
         except Exception as e:
-            inconc.append({"reason": f"model {os.path.basename(p)}: {type(e).__name__}: {e}"[:300]})
+            inconc.append({"reason": f"model {os.path.basename(p)}/{strat}: {type(e).__name__}: {e}"[:300]})
+            continue
+        if info.get("skipped"):
             continue
         n += 1
         q += info.get("queries", 0)
@@ -135,11 +183,11 @@ def run_task(task):
             if "unknown" in f:
                 inconc.append({"reason": f})
             else:
-                viol.append({"rules": "", "hist": {}, "kind": "model", "info": {"model": p, "fail": f}})
+                viol.append({"rules": "", "hist": {}, "kind": "model", "info": {"model": p, "strat": strat, "fail": f}})
     return {"label": task["label"], "classes": n, "exhausted": True, "violations": viol[:6], "inconclusive": inconc[:3], "observations": q,
             "samples": samples, "queries": {"model_queries": q}, "z3_s": 0, "real_s": time.time() - t0, "wall_s": time.time() - t0, "hangs": []}
 
 
 def replay(rec):
-    info, fails = check_model(rec["info"]["model"], selftest=bool(rec["params"].get("selftest")))
+    info, fails = check_model(rec["info"]["model"], selftest=bool(rec["params"].get("selftest")), strat=rec["info"].get("strat", "min"), cap_s=240)
     return {"reproduces": bool(fails), "failing": fails[:4], "signature": None}
